@@ -182,7 +182,7 @@ def expected_after_write(target, pi, depth):
     return grp[-1] + '|' * fno + ftext
 
 
-def write_once(target, pi, depth, spell_kind, level, trace=None):
+def write_once(target, pi, depth, spell_kind, level, trace=None, wmode=0):
     reset_defaults()
     root = make_root(target, pi, level, prefill=False)
     steps = steps_for(target, pi, depth)
@@ -201,7 +201,15 @@ def write_once(target, pi, depth, spell_kind, level, trace=None):
         pass
     holder = navigate(root, steps[:-1], spell_kind) if len(steps) > 1 else root
     field_name = root.name if target == 2 else ([s[1] for s in steps if s[0] == 'field'] or [None])[0]
-    setattr(holder, spell(steps[-1], spell_kind, field_name, None), tok(pi))
+    def _write(h):
+        nm = spell(steps[-1], spell_kind, field_name, None)
+        if wmode == 0:
+            setattr(h, nm, tok(pi))                    # h.child = value
+        elif wmode == 1:
+            getattr(h, nm)[0] = tok(pi)                # h.child[0] = value
+        else:
+            getattr(h, nm).value = tok(pi)             # h.child.value = value
+    _write(holder)
     # the innermost segment (or the field itself) must encode X at the defined position and nowhere else
     if target == 2:
         got = root.to_er7()
@@ -216,7 +224,7 @@ def write_once(target, pi, depth, spell_kind, level, trace=None):
     ok = got == want and _single_chain(root, target, pi, steps)
     # writing the same thing again adds nothing
     holder2 = navigate(root, steps[:-1], spell_kind) if len(steps) > 1 else root
-    setattr(holder2, spell(steps[-1], spell_kind, field_name, None), tok(pi))
+    _write(holder2)
     t2 = tree(root)
     if trace is not None:
         trace.append('write X at the end of %s (spelling %d)\n  innermost element encodes %r (expected %r)\n  tree before %r\n  tree after  %r\n  tree after 2nd identical write %r' % (
@@ -277,19 +285,19 @@ def _ob_read(r: int, term: int, rep: int, strict: bool) -> bool:
         return read_only(target, pi, depth, spell_kind, term, rep, level)
 
 
-def _ob_write(r: int, strict: bool) -> bool:
+def _ob_write(r: int, strict: bool, wmode: int) -> bool:
     """
-    pre: 0 <= r < NCHAIN
+    pre: 0 <= r < NCHAIN and 0 <= wmode < 3
     pre: in_part(r)
     post: _
     """
-    r = bsearch(r, NCHAIN)
+    r, wmode = bsearch(r, NCHAIN), bsearch(wmode, 3)
     level = 1 if strict else 2
     with concrete():
         target, pi, depth, spell_kind = _decode(r)
         if depth > maxdepth(target, pi):
             return True
-        return write_once(target, pi, depth, spell_kind, level)
+        return write_once(target, pi, depth, spell_kind, level, None, wmode)
 
 
 def explain(call):
@@ -306,11 +314,12 @@ def explain(call):
         except Exception as e:
             tr.append('raised %s: %s' % (type(e).__name__, e))
     else:
-        v = dict(zip(['r', 'strict'], a)); v.update(kw)
+        v = dict(zip(['r', 'strict', 'wmode'], a)); v.update(kw)
         target, pi, depth, sk = _decode(v['r'])
-        tr.append('target %d path %r depth %d level %s' % (target, PATHS[pi], depth, 'STRICT' if v['strict'] else 'TOLERANT'))
+        tr.append('target %d path %r depth %d level %s write form %s' % (target, PATHS[pi], depth, 'STRICT' if v['strict'] else 'TOLERANT',
+                                                                       ['h.child = v', 'h.child[0] = v', 'h.child.value = v'][v.get('wmode', 0)]))
         try:
-            write_once(target, pi, depth, sk, 1 if v['strict'] else 2, tr)
+            write_once(target, pi, depth, sk, 1 if v['strict'] else 2, tr, v.get('wmode', 0))
         except Exception as e:
             tr.append('raised %s: %s' % (type(e).__name__, e))
     return '\n'.join(tr)
@@ -332,7 +341,7 @@ SPEC = {
          'bound': '%d chains (3 targets x %d paths x depth 1..5 x %d spellings) x %d terminal observations x 1..3 repetitions x 2 levels: '
                   'encoding, children tree and validation report unchanged' % (NCHAIN, NPATH, NSPELL, NTERM)},
         {'name': 'write', 'fn': '_ob_write', 'parts': 16, 'cond_timeout': 900, 'path_timeout': 60,
-         'bound': '%d chains x 2 levels: a write at the end creates one element per level at its defined position; a second identical '
-                  'write adds nothing' % NCHAIN},
+         'bound': '%d chains x 2 levels x 3 forms of the final write (h.child = v, h.child[0] = v, h.child.value = v): a write at the '
+                  'end creates one element per level at its defined position; a second identical write adds nothing' % NCHAIN},
     ],
 }
